@@ -100,6 +100,24 @@ MUTANTS = [
 
 # weakened but still correct under the property (atomicity or validation alone suffices): must NOT alarm
 NOFALSE = [
+    # the path of the defining file ends up in the generated code (an error message): the twin lives elsewhere
+    ("C15", "defining-path-in-generated-code", [
+        ("bisturi/codegen.py", "def unpack_impl(pkt, raw, offset, **k):\n   k['innermost-pkt-pos'] = offset\n",
+         "def unpack_impl(pkt, raw, offset, **k):\n   k['innermost-pkt-pos'] = offset\n   k.setdefault('defined-in', %(defined_in)r)\n"),
+        ("bisturi/codegen.py", "                    'blocks_of_code':\n                    indent(\"\\n\".join([c[1] for c in codes]), level=2),\n",
+         "                    'defined_in': getattr(sys.modules.get(self.pkt_class.__module__), '__file__', '?'),\n                    'blocks_of_code':\n                    indent(\"\\n\".join([c[1] for c in codes]), level=2),\n")]),
+    # a lock added around shared state is scheduled (cooperative locks), not dead-locked, and raises no alarm
+    ("C13", "lock-around-expression-evaluation", "bisturi/deferred.py",
+     "def exec_compiled_expr(pkt, args, ops, *vargs, **kargs):\n",
+     "import threading\n_EXPR_LOCK = threading.Lock()\n\n\ndef exec_compiled_expr(pkt, args, ops, *vargs, **kargs):\n    with _EXPR_LOCK:\n        return _exec_compiled_expr(pkt, args, ops, *vargs, **kargs)\n\n\ndef _exec_compiled_expr(pkt, args, ops, *vargs, **kargs):\n"),
+    # the shared operand stack (a MUTANT on its own) made safe again by a lock: the property holds, no alarm
+    ("C13", "shared-operand-stack-under-a-lock", [
+        ("bisturi/deferred.py", "    args = list(args)\n", "    del args[:]\n"),
+        ("bisturi/deferred.py", "def exec_compiled_expr(pkt, args, ops, *vargs, **kargs):\n",
+         "import threading\n_EXPR_LOCK = threading.Lock()\n\n\ndef exec_compiled_expr(pkt, args, ops, *vargs, **kargs):\n    with _EXPR_LOCK:\n        return _exec_compiled_expr(pkt, args, ops, *vargs, **kargs)\n\n\ndef _exec_compiled_expr(pkt, args, ops, *vargs, **kargs):\n")]),
+    ("C13", "rlock-around-sequence-unpack", "bisturi/structural_fields.py",
+     "    def unpack(self, pkt, raw, offset=0, **k):\n        sequence = []\n",
+     "    def unpack(self, pkt, raw, offset=0, **k):\n        import threading\n        lock = self.__dict__.setdefault('_lock', threading.RLock())\n        with lock:\n            return self._unpack_locked(pkt, raw, offset, **k)\n\n    def _unpack_locked(self, pkt, raw, offset=0, **k):\n        sequence = []\n"),
     # harmless since the temporary file is created exclusively (8926dad): the second writer falls back to memory
     ("C16", "tmp-name-shared", "bisturi/codegen.py",
      "        tmp_pathname = \"%s.%i.%08x.tmp\" % (\n            module_pathname, os.getpid(), random.getrandbits(32)\n        )\n",
